@@ -565,7 +565,119 @@ def rule_wrapper_siblings(ctx: Ctx, rep: Report) -> None:
     rep.floor(rule, 2)
 
 
+class _SubstFragment(ast.NodeTransformer):
+    """Replace `<x>.fragment` (and a local bound to it) by a constant."""
+
+    def __init__(self, frag: str, locals_: set[str]):
+        self.frag, self.locals_ = frag, locals_
+
+    def visit_Attribute(self, n: ast.Attribute):
+        if n.attr == "fragment":
+            return ast.Constant(self.frag)
+        return self.generic_visit(n)
+
+    def visit_Name(self, n: ast.Name):
+        return ast.Constant(self.frag) if n.id in self.locals_ else n
+
+
+def _arm_for(fi: FuncInfo, e: ast.AST, frag: str) -> ast.AST:
+    """The arm of a conditional expression that a fragment selects (the expression itself when it is not conditional)."""
+    from rules.C08 import _eval_bool
+    import copy
+    loc = {a.targets[0].id for a in own_nodes(fi.node) if isinstance(a, ast.Assign) and isinstance(a.targets[0], ast.Name) and isinstance(a.value, ast.Attribute) and a.value.attr == "fragment"}
+    while isinstance(e, ast.IfExp):
+        t = _SubstFragment(frag, loc).visit(ast.parse(ast.unparse(e.test), mode="eval").body)
+        e = e.body if _eval_bool(t, {}) else e.orelse
+    return e
+
+
+def rule_wrapper_dissatisfaction(ctx: Ctx, rep: Report) -> None:
+    """C15.wrapper_dissatisfaction: `d:X` and `j:X` are dissatisfied by the element
+    their OP_IF reads -- nothing of X runs -- while `a: s: c: n:` are
+    dissatisfied by dissatisfying X. The executed-ops table says so: the
+    dissatisfaction cost `_wrapper_ops` answers is a constant for d: and j:
+    and X's own for the four others (the conditional is evaluated for each
+    wrapper). With j: on the wrong side, `j:` over an argument that cannot be
+    dissatisfied has no dissatisfaction cost at all, the branch behind it drops
+    out of max_ops, and an expression over the 201-op limit is called sane."""
+    rule = "C15.wrapper_dissatisfaction"
+    fi = ctx.func(f"{MS}._wrapper_ops")
+    rets = [r for r in own_nodes(fi.node) if isinstance(r, ast.Return) and isinstance(r.value, ast.Tuple) and len(r.value.elts) == 2 and isinstance(r.value.elts[1], ast.Call)
+            and call_name(r.value.elts[1]) == "_Bounds" and len(r.value.elts[1].args) == 2]
+    if not rets:
+        rep.unknown(rule, "_wrapper_ops", fi.where(), "no (static, _Bounds(sat, dsat)) return")
+        return
+    rets.sort(key=lambda r: r.lineno)
+    last = rets[-1].value.elts[1].args[1]
+    from sa.canon import expand
+    e = ast.parse(str(expand(fi, last)), mode="eval").body
+    n = 0
+    for frag, free in (("d:", True), ("j:", True), ("a:", False), ("s:", False), ("c:", False), ("n:", False)):
+        try:
+            arm = _arm_for(fi, e, frag)
+        except KeyError as ex:
+            rep.unknown(rule, f"_wrapper_ops:{frag}", fi.where(rets[-1]), f"cannot evaluate {ex}")
+            continue
+        n += 1
+        reads_sub = any(isinstance(x, ast.Attribute) and x.attr == "dsat" for x in ast.walk(arm))
+        ok = reads_sub != free
+        rep.ob(rule, f"_wrapper_ops:{frag}", ok, fi.where(rets[-1]), (f"{frag} dissatisfied at a constant cost" if free else f"{frag} dissatisfied at its argument's cost") if ok else
+               (f"the dissatisfaction cost of {frag} is `{ast.unparse(arm)}`: " + ("its OP_IF reads one element and nothing of the argument runs -- an argument that cannot be dissatisfied leaves the bound undefined and the branch uncounted" if free else "it runs its argument, whose cost is then not counted")))
+    rep.floor(rule, 6)
+
+
+ROW_READS = [
+    # (function, fragment of the arm or None for the whole function, what the row must read, why)
+    ("_computed_script_size", "thresh", {"threshold", "subs"}, "the script of thresh(k, ...) pushes k as a number: one byte up to 16, two from 17"),
+    ("_leaf_script_size", "multi", {"threshold"}, "multi(k, ...) pushes k"),
+    ("_leaf_script_size", "multi_a", {"threshold"}, "multi_a(k, ...) pushes k"),
+    ("_leaf_script_size", "older", {"threshold"}, "older(n) pushes n"),
+]
+
+
+def rule_row_reads(ctx: Ctx, rep: Report) -> None:
+    """C15.row_reads: the rows of the size tables read the parameters the script
+    they measure is written from -- the size of `thresh(k, ...)` and of
+    `multi(k, ...)` depends on k through the width of its push, older(n) on n --
+    and the dissatisfaction of `multi(k, ...)` is k + 1 empty pushes, so the
+    loop that builds it runs over the threshold, not over the keys. Data
+    dependence only: that the row is *right* is for the vectors; that it reads
+    what it must is visible in its shape."""
+    rule = "C15.row_reads"
+    from sa.canon import expand
+    for fn, frag, need, why in ROW_READS:
+        fi = ctx.func(f"{MS}.{fn}")
+        arm = None
+        for i in own_nodes(fi.node):
+            if isinstance(i, ast.If) and any(isinstance(c, ast.Constant) and (c.value == frag or (isinstance(c.value, str) and False)) for c in ast.walk(i.test)) and ".fragment" in str(expand(fi, i.test)) + str(norm(i.test)) or \
+                    (isinstance(i, ast.If) and any(isinstance(c, ast.Constant) and c.value == frag for c in ast.walk(i.test))):
+                arm = i
+                break
+        if arm is None:
+            rep.unknown(rule, f"{fn}:{frag}", fi.where(), "the arm was not found")
+            continue
+        reads = {x.attr for st in arm.body for x in ast.walk(st) if isinstance(x, ast.Attribute)}
+        names = {x.id for st in arm.body for x in ast.walk(st) if isinstance(x, ast.Name)}
+        for a in own_nodes(fi.node):
+            if isinstance(a, ast.Assign) and isinstance(a.targets[0], ast.Name) and a.targets[0].id in names and a.lineno < arm.lineno:
+                reads |= {x.attr for x in ast.walk(a.value) if isinstance(x, ast.Attribute)}
+        ok = need <= reads | ({"subs"} if "size" in names and "subs" in need else set())
+        rep.ob(rule, f"{fn}:{frag}", ok, fi.where(arm), f"reads {sorted(need)}" if ok else f"the {frag} row does not read {sorted(need - reads)}: {why}")
+    mi = ctx.func(f"{MS}._multi_input")
+    rets = sorted([r for r in own_nodes(mi.node) if isinstance(r, ast.Return) and isinstance(r.value, ast.Call) and call_name(r.value) == "_Inputs" and len(r.value.args) == 2 and isinstance(r.value.args[1], ast.Name)], key=lambda r: r.lineno)
+    loops = [f for f in own_nodes(mi.node) if isinstance(f, ast.For) and rets and any(isinstance(a, ast.Assign) and isinstance(a.targets[0], ast.Name) and a.targets[0].id == rets[-1].value.args[1].id for a in f.body)]
+    if len(loops) != 1:
+        rep.unknown(rule, "_multi_input:dissatisfaction", mi.where(), f"{len(loops)} loops build the dissatisfaction")
+    else:
+        ok = any(isinstance(x, ast.Attribute) and x.attr == "threshold" for x in ast.walk(loops[0].iter))
+        rep.ob(rule, "_multi_input:dissatisfaction", ok, mi.where(loops[0]), "k + 1 empty pushes: the loop runs over the threshold" if ok else
+               f"the dissatisfaction of multi() is built by a loop over `{norm(loops[0].iter)}`: CHECKMULTISIG looks for k signatures, and any other count of empty pushes leaves an element the script does not expect")
+    rep.floor(rule, 5)
+
+
 RULES = [
+    ("C15.wrapper_dissatisfaction", rule_wrapper_dissatisfaction),
+    ("C15.row_reads", rule_row_reads),
     ("C15.wrapper_siblings", rule_wrapper_siblings),
     ("C15.andor_tables_agree", rule_andor_tables_agree),
     ("C15.stack_order", rule_stack_order),
